@@ -1303,7 +1303,7 @@ class Interp(ExprEnc):
 
 # ------------------------------------------------------------------------------------------------ observation
 
-def observable(it, fr, routine, include_locals=()):
+def observable(it, fr, routine, include_locals=(), intents=None):
     """ordered list of (label, term) describing what a caller can observe after the routine returned"""
     out = []
 
@@ -1323,6 +1323,8 @@ def observable(it, fr, routine, include_locals=()):
                 add(f'{label}%{k}', c)
     for a in routine.arguments:
         intent = (a.type.intent or '').lower()
+        if intents is not None and a.name.lower() in intents:
+            intent = (intents[a.name.lower()] or '').lower()   # the original's declared intents decide what is observable
         obj = fr.vars.get(a.name.lower())
         if intent == 'in' or obj is None or isinstance(obj, Absent):
             continue
